@@ -477,17 +477,20 @@ class Life:
         timeout = int(self.plan.get("op_timeout", 120))
         signal.signal(signal.SIGALRM, _alarm)
         timed_out = False
+        tainted_from = None  # index of the first op that hit a timeout: everything from there on is unjudged
         for i, op in enumerate(self.plan["ops"]):
             ev = {"i": i, "op": op["op"]}
             fn = getattr(self, "op_" + op["op"])
             t_op = time.perf_counter()  # reporting only: never enters a digest or a decision
-            signal.alarm(min(timeout, 25) if op.get("how") in ("simplify", "nosing") else timeout)
+            signal.alarm(min(timeout, 10) if op.get("how") in ("simplify", "nosing") else timeout)
             try:
                 fn(op, ev)
                 ev["status"] = "ok"
             except OpTimeout:
                 ev["status"] = "timeout"
                 timed_out = True
+                if tainted_from is None:
+                    tainted_from = i
             except KeyError as e:
                 # a handle whose LOAD/DERIVE failed earlier: not an observation
                 if op["op"] in self.OBSERVING and "key" in ev:
@@ -504,14 +507,15 @@ class Life:
                 signal.alarm(0)
             ev["ms"] = int((time.perf_counter() - t_op) * 1000)
             events.append(ev)
-            if timed_out:
-                break
+            if timed_out and op.get("how") not in ("simplify", "nosing"):
+                break  # a runaway judged op: stop the life; a runaway *probe* only taints what follows
         return {
             "life": self.plan["life"],
             "hash_key": self.plan["hash_key"],
             "sympy_seed": self.plan.get("sympy_seed", 0),
             "hashseed_env": os.environ.get("PYTHONHASHSEED"),
             "timed_out": timed_out,
+            "tainted_from": tainted_from,
             "events": events,
         }
 
